@@ -7,7 +7,7 @@ from __future__ import annotations
 
 from hypothesis import strategies as st
 
-from vlib.core import Sub, req, sut
+from vlib.core import fuzz_variant, Sub, req, sut
 
 PROPERTY = "C19"
 RULE = ("two alignment sets over a small key space (query ids 1-4 x reference ids 1-3, so keys collide and repeat), pair lists of "
@@ -146,5 +146,8 @@ def strategy(draw):
 
 def subchecks(tier):
     q = tier == "quick"
-    return [Sub("laws", "hyp", check, strategy=strategy, examples=24000 if q else 600000, shrink_budget=800,
+    subs = [Sub("laws", "hyp", check, strategy=strategy, examples=24000 if q else 600000, shrink_budget=800,
                 required_classes=("duplicated-query-label", "key-twice-in-one-set", "empty-alignment", "combine", "repeated-identical-pair"))]
+    if not q:
+        subs.append(fuzz_variant(next(s for s in subs if s.name == "laws"), 40000))
+    return subs
